@@ -605,6 +605,18 @@ func (g *Gen) havocLoc(st *State, sc *SCtx, m Expr) error {
 			}
 			return g.havocMap(st, v)
 		}
+		if id, ok := call.Fun.(*EIdent); ok && id.Name == "cells" && len(call.Args) == 1 {
+			ty, err := sc.typeByName(ExprString(call.Args[0]))
+			if err != nil {
+				return err
+			}
+			for _, n := range append([]string{}, g.uniOrder...) {
+				if n == "O:"+typeStr(ty) {
+					g.heapSet(st, n, g.universe[n], g.fresh("hv:"+n, g.universe[n]))
+				}
+			}
+			return nil
+		}
 		if id, ok := call.Fun.(*EIdent); ok && id.Name == "fields" && len(call.Args) == 1 {
 			// fields(T): any field of any object of struct type T (footprint by type)
 			ty, err := sc.typeByName(ExprString(call.Args[0]))
@@ -819,6 +831,19 @@ func (g *Gen) allowSets(mods []Expr, sc *SCtx, what string) map[string][]allowed
 				for _, lf := range leavesOf(et) {
 					name := g.compName(&Addr{Root: RElem, RootT: et}, lf)
 					allow[name] = append(allow[name], allowedLoc{ref: v.F[0].T, lo: v.F[1].T, hi: Add(v.F[1].T, v.F[3].T)})
+				}
+				continue
+			}
+			if id, ok := call.Fun.(*EIdent); ok && id.Name == "cells" && len(call.Args) == 1 {
+				ty, err := sc.typeByName(ExprString(call.Args[0]))
+				if err != nil {
+					g.BindErrs = append(g.BindErrs, fmt.Sprintf("%s %s: %v", what, ExprString(m), err))
+					continue
+				}
+				for _, n := range g.uniOrder {
+					if n == "O:"+typeStr(ty) {
+						allow[n] = append(allow[n], allowedLoc{any: true})
+					}
 				}
 				continue
 			}
